@@ -98,7 +98,8 @@ PROPS = {
         rule='F_floor scenarios: layered production lines (sources incl. cycle 0 and finite budgets, handlers, processors with resources/callbacks/work orders, buffers with delay and capacity, batchers, decision gates, flow controllers, shared groups reached through several paths incl. nested and re-entrant use, sinks), scripted failures/shutdowns/restores/blocking/capacity changes/budget adjustments/one-shot offsets/mid-run rewiring/devices constructed mid-run with upstream devices named in the constructor, many single steps then runs, generated from VERIF_SEED (corpus/floor first); '
              'non-trivial = at least 8 parts received and 3 supplied; distinct by scenario text',
         explanation='Value theorems: a generated part carries the generator value; every device adds its value exactly once on acceptance (guarded transformer), '
-                    'sink value = sum of received; cost bookkeeping of work orders (C12_start); tie = lock-step on values of every part/device after every event.',
+                    'sink value = sum of received; cost bookkeeping of work orders (C12_start); tie = lock-step on values of every part/device after every event; '
+                    'the net value of the system is compared on the implementation with the sum over every asset the experiment constructed, including assets created while the simulation is in progress (between two runs and from a callback).',
         assumptions=['well-posed layouts', 'values on the 1/8 grid']),
     'C17': dict(
         vfile='Props/C17.v', ties=['Tie/TieEnv.v', 'Tie/TieFloor.v'],
